@@ -309,6 +309,15 @@ def check_caches(run, modules, rule, functions=None):
                 continue
             nstores += local_memos(run, rule, mi, name, fn)
             nstores += last_call_memos(run, rule, mi, name, fn)
+            if inst is not None and not name.split('.')[-1].startswith('_'):
+                # a result array that is also kept on the instance and refilled by the next call is shared between results
+                from .rules._purity import returns_held_buffer
+                for r_, fld_ in returns_held_buffer(fn):
+                    nstores += 1
+                    run.subject(rule)
+                    run.fail(rule, '%s|%s|held-result:%s' % (mi.name, name, fld_), mi.relpath, r_.lineno,
+                             "%s fills and returns an array that is also kept in self.%s and reused by the next call: a result the caller still holds "
+                             "is overwritten by a later call, so results depend on the call history" % (name, fld_))
             if not containers and not inst:
                 continue
             params = set(params_of(fn)) - {'self', 'cls'}
